@@ -32,7 +32,7 @@ def arity_of(bt, types):
     return types[bt["ft"]][1]
 
 
-def run(ops, conds, plan=None, types=None, nresults=0, fuel=400, marker_filter=None, record_all_probes=False, params=()):
+def run(ops, conds, plan=None, types=None, nresults=0, fuel=400, marker_filter=None, record_all_probes=False, params=(), tolerate_function_label=False):
     plan = plan or []
     types = types or []
     ev = []
@@ -150,7 +150,8 @@ def run(ops, conds, plan=None, types=None, nresults=0, fuel=400, marker_filter=N
                 pc += 1
         elif k == "br":
             pc = do_branch(op[1], pc)
-            fire("semantic_after", old)
+            if not (tolerate_function_label and pc == n):
+                fire("semantic_after", old)
         elif k == "br_if":
             c = stack.pop()
             if c != 0:
@@ -158,13 +159,15 @@ def run(ops, conds, plan=None, types=None, nresults=0, fuel=400, marker_filter=N
             else:
                 pc += 1
                 fire("after", old)
-            fire("semantic_after", old)
+            if not (tolerate_function_label and c != 0 and pc == n):
+                fire("semantic_after", old)
         elif k == "br_table":
             sel = stack.pop()
             ds = list(op[1])
             d = ds[sel] if 0 <= sel < len(ds) else op[2]
             pc = do_branch(d, pc)
-            fire("semantic_after", old)
+            if not (tolerate_function_label and pc == n):
+                fire("semantic_after", old)
         elif k == "return":
             stack = stack[len(stack) - nresults:] if nresults else []
             pc = n
